@@ -172,7 +172,9 @@ def gen_spec(rng, nested_hex=None, version=None, template=None, force=None):
             subsets.append(gen_raws(rng, tree))
     sec2 = None
     r = rng.random()
-    if r < 0.15:
+    if r < 0.04:
+        sec2 = ''           # section 2 present and empty (4 octets): valid, and its zero-width field is a corner
+    elif r < 0.15:
         sec2 = bytes(rng.randrange(256) for _ in range(rng.randint(0, 24))).replace(b'BUFR', b'BUFX').hex()
     elif r < 0.30:
         sig = rng.choice(SIGS)
